@@ -62,6 +62,7 @@ type System struct {
 	scheduler         *scheduler.Scheduler                              // 调度器
 	status            int32                                             // 系统状态
 	statusLock        sync.Mutex                                        // 系统状态锁
+	startLock         sync.Mutex                                        // Start 执行期间持有，stop 以此等待尚未完成的启动
 	clusterContext    *cluster.Context                                  // 集群上下文
 	cancel            context.CancelFunc                                // 上下文停止函数
 }
@@ -121,6 +122,8 @@ func (s *System) Start() error {
 			return vivid.ErrorActorSystemAlreadyStopped
 		default:
 			s.status = start
+			// 在状态锁内获取 startLock：任何观察到 status 为 start 的 stop 调用都会在 startLock 上等待本次启动完成
+			s.startLock.Lock()
 			return nil
 		}
 	}(s)
@@ -136,6 +139,7 @@ func (s *System) Start() error {
 		Append(systemChains.initializeRemoting(s)).
 		Append(systemChains.initializeCluster(s)).
 		Run()
+	s.startLock.Unlock()
 
 	if startErr != nil {
 		s.Logger().Error("actor system start failed", log.Any("err", startErr))
@@ -180,6 +184,11 @@ func (s *System) stop(checkLog bool, timeout ...time.Duration) error {
 	if stateError != nil {
 		return stateError
 	}
+
+	// 等待尚未完成的 Start：若 Stop 落在 Start 切换状态之后、根 Actor 创建之前，此时 s.Context 仍为 nil，
+	// 停止流程会直接成功返回，而 Start 随后创建的根 Actor（及其子 Actor）将永远存活
+	s.startLock.Lock()
+	s.startLock.Unlock() //nolint:staticcheck // 仅作为等待屏障
 
 	// 优先离开集群（未启用集群时 clusterContext 为 nil）
 	if s.clusterContext != nil {
